@@ -40,7 +40,7 @@ def gen_cases(tier, seed):
             cases.append({"crystal": {"name": name, "order": ["asis", "interleave", "random"][rng.integers(3)], "order_seed": int(rng.integers(1000)),
                                       "int_shift": bool(rng.integers(2))},
                           "smat": sm, "pmat": ["P", "centring", "centring"][rng.integers(3)], "cls": ["fixed", "noisy", "random", "asr_only"][rng.integers(4)],
-                          "level": int(rng.integers(1, 4)), "seed": int(rng.integers(10 ** 6)), "store_dense_svecs": bool(rng.integers(2)),
+                          "level": int(rng.integers(1, 4)), "_threads": [1, 2, 3, 5, 7, 16][int(rng.integers(6))], "seed": int(rng.integers(10 ** 6)), "store_dense_svecs": bool(rng.integers(2)),
                           "_cost": (nu * setup.det3(sm)) ** 2})
     return cases
 
